@@ -339,3 +339,11 @@ func TestVerifC02Seq(t *testing.T) {
 	c01LoadServices(e)
 	vutil.Main(t, c02SeqGen, e.run)
 }
+
+// TestVerifC02Config is the configuration-sequence / engine-lifecycle mode of
+// c01_test.go with queries whose UPSTREAM ANSWER reveals the names the lists are
+// about (response stage).
+func TestVerifC02Config(t *testing.T) {
+	e := c01NewEnv(t, 0)
+	vutil.Main(t, c01ConfigGenFor("C02"), e.run)
+}
